@@ -651,8 +651,21 @@ def rule_r3(chk) -> None:
             shared = [la[0] for w, la in _lock_regions(st) if checks and all(any(x is s for x in ast.walk(w)) for s in checks)]
             sender_has_region |= bool(shared)
             common = [a for a in shared if a in releaser_locks]
+            # a critical section provided by the lifecycle lock object itself (e.g. `async with lifecycle.<hold>(run_id) as state:`)
+            # is accepted: the releaser's CAS goes through the same object; its implementation is then R4's business
+            by_lifecycle = []
+            for w in with_regions(st):
+                for item in w.items:
+                    ce = strip_await(item.context_expr)
+                    if isinstance(ce, ast.Call) and isinstance(ce.func, ast.Attribute) and isinstance(ce.func.value, ast.Name):
+                        d = strip_await(reaching_def(ce.func.value.id, w))
+                        if isinstance(d, ast.Call) and "lifecycle" in (call_name(d) or ""):
+                            by_lifecycle.append(ce.func.attr)
             chk_txt = "; ".join(" ".join(ast.unparse(s).split())[:70] for s in checks[:2])
-            if not checks:
+            if by_lifecycle:
+                ok, reason = True, ""
+                chk.observe(f"C26.R3: [{stack}] the sender's critical section is provided by the lifecycle object (`{by_lifecycle[0]}`); its mutual exclusion with begin_release is trusted, not analysed")
+            elif not checks:
                 ok, reason = False, "the forwarding send is not guarded (inside its critical section) by any liveness / lifecycle check"
             elif common:
                 unknown = [a for a in common if a not in locks]
@@ -945,6 +958,9 @@ def rule_r5(chk) -> None:
     wait_nodes = [n for w in waits for n in rcfg.nodes_of(enclosing_stmt(w))]
     for c in starts:
         off = rcfg.must_pass([rcfg.entry], rcfg.nodes_of(enclosing_stmt(c)), wait_nodes, labels_excluded=("exc", "cancel")) if wait_nodes else [1]
+        if not off and rcfg.must_pass([rcfg.entry], rcfg.nodes_of(enclosing_stmt(c)), wait_nodes):
+            chk.observe("C26.R5: when retrieving / awaiting the old DBOS workflow raises, _do_resume logs and restarts the run anyway (exception path not "
+                        "claimed: whether an old control loop can still be alive then depends on DBOS failure semantics)")
         chk.ob("C26.R5", "_do_resume awaits the old DBOS workflow's result before starting the run again", not off, m=md, node=c, fn=res,
                instance="resume:await-old", reason="a path reaches run_workflow without `await <retrieve_workflow_async(run_id)>.get_result()`: two control loops for one run id")
         a0 = c.args[0] if c.args else kwarg(c, "run_id")
